@@ -24,7 +24,7 @@ class UnitOutcome:
         self.functions = []; self.items = []; self.trusted = []; self.cmds = []
         self.smt_ms = 0; self.wall_s = 0.0; self.round_trip = None
         self.canaries = {}; self.mutants = []; self.samples = []; self.gen_info = {}
-        self.clauses_total = 0; self.clauses_for_property = 0; self.verus_text = None; self.known_clauses = []
+        self.clauses_total = 0; self.clauses_for_property = 0; self.verus_text = None; self.known_clauses = []; self.degraded = []
 
 def clause_index(B):
     """label -> [line numbers]; distinct labels (per item) counted once."""
@@ -43,7 +43,19 @@ def run_unit(verif, name, pid, tier, scratch):
     try:
         B = U.build(udir, REPO, "verify")
     except U.UnitError as e:
-        O.undecided = f"extractor: {e}"; return O
+        if "lost anchor" in str(e) and "cannot read" not in str(e) and ": found 0 candidates" not in str(e):
+            # degraded mode: proof hints whose anchors are gone are dropped; the contract clauses stay. A clause that then
+            # fails is reported as a violation ONLY if the witness replay shows a failing input on the real code.
+            try:
+                U.TOLERANT["on"] = True
+                B = U.build(udir, REPO, "verify")
+                O.degraded = [f"{ex.id}: {l}" for ex in B.items for l in ex.lost] or [str(e)]
+            except U.UnitError as e2:
+                O.undecided = f"extractor: {e2}"; return O
+            finally:
+                U.TOLERANT["on"] = False
+        else:
+            O.undecided = f"extractor: {e}"; return O
     O.gen_info = B.gen_info
     O.round_trip = B.round_trip_ok
     if not B.round_trip_ok:
@@ -56,6 +68,7 @@ def run_unit(verif, name, pid, tier, scratch):
     import concurrent.futures as CF
     pool = CF.ThreadPoolExecutor(max_workers=2)
     def _canary():
+        if O.degraded: return None, None, U.UnitError("skipped: proof anchors lost")
         try:
             Bc = U.build(udir, REPO, "canary")
             return Bc, VR.run(Bc.text, scratch, name + "_canary", Bc, multiple_errors=6), None
@@ -94,7 +107,9 @@ def run_unit(verif, name, pid, tier, scratch):
     O.known_clauses = sorted(f"{name}.{i or '_'}.{l}" for i, l in known_labels)
     items_failing = {}
     for d in R.diags:
-        items_failing.setdefault(d.item, set()).add(d.name(name) in kf_names)
+        ps_, _n = label_props(d.label)
+        foreign = ps_ is not None and pid not in ps_     # a clause that serves other properties only
+        items_failing.setdefault(d.item, set()).add(d.name(name) in kf_names or foreign)
     only_known_items = sum(1 for it, flags in items_failing.items() if all(flags))
     O.obligations = O.verus_items + len(mine) - len(known_labels & mine) - only_known_items
     O.discharged = R.verified + len(mine - failed_labels)
@@ -109,6 +124,7 @@ def run_unit(verif, name, pid, tier, scratch):
     # canaries (vacuity guard) — every run
     try:
         Bc, Rc, cerr = fut_c.result()
+        if cerr is not None and O.degraded: raise StopIteration
         if cerr is not None: raise cerr
         O.cmds.append(Rc.cmd); O.smt_ms += Rc.smt_ms
         if Rc.tool_failure or Rc.compile_errors:
@@ -123,6 +139,8 @@ def run_unit(verif, name, pid, tier, scratch):
             bad = [f for f, ok in O.canaries.items() if not ok]
             if bad and not [f for f in O.failed if f[0] not in kf_names]:
                 O.undecided = f"vacuity: canary postcondition verified for {bad} (contradictory precondition or shim)"
+    except StopIteration:
+        pass
     except U.UnitError as e:
         O.undecided = f"canary build: {e}"
     # mutant smoke tests (thorough): fixed textual mutations of the extracted copy must fail a named obligation
@@ -254,6 +272,11 @@ def run_property(verif, pid, tier, seed):
                     except Exception as e:
                         note = f"witness search failed: {type(e).__name__}: {e}"
                 confirmed = bool(witness and witness.get("violates"))
+                if O.degraded and not confirmed:
+                    undecided.append(f"{O.name}: proof anchors lost ({'; '.join(O.degraded[:3])}); {nm} is not discharged and no failing input was found by the replay: undecided, not an alarm")
+                    continue
+                if O.degraded:
+                    note = "proof hints lost their anchors (the code was restructured); the contract clause is not discharged AND the replay shows a failing input on the real code"
                 if not confirmed and not note:
                     note = "no failing input found by the witness search; the obligation was discharged on the unchanged tree and now fails"
                 path = write_replay(verif, pid, nm, O, d, witness, note)
@@ -276,7 +299,7 @@ def run_property(verif, pid, tier, seed):
                 "functions_under_contract": O.items, "round_trip_ok": O.round_trip,
                 "solver": O.functions, "smt_ms": O.smt_ms, "wall_s": round(O.wall_s, 2),
                 "canaries_failed_as_expected": O.canaries, "mutants": O.mutants,
-                "failed_obligations": [nm for nm, _ in O.failed], "failed_other_properties": O.other_failed,
+                "degraded_lost_anchors": O.degraded, "failed_obligations": [nm for nm, _ in O.failed], "failed_other_properties": O.other_failed,
                 "known_finding_obligations_excluded_from_counts": O.known_clauses,
                 "generated": O.gen_info, "checker_cmds": O.cmds,
             } for O in outcomes],
@@ -294,7 +317,7 @@ def run_property(verif, pid, tier, seed):
     for nm, txt in known:
         print(f"KNOWN-FINDING: property={pid} {nm} {txt}")
     for l in lines: print(l)
-    if viol:
+    if lines:
         return 1
     if undecided:
         for u in undecided: print(f"UNDECIDED property={pid} {u}")
